@@ -212,20 +212,31 @@ class MultiTerm(qcore.Query):
         if not qs:
             return matching.NullMatcher()
 
+        if constantscore:
+            # To tell the sub-query that score doesn't matter, set weighting
+            # to None
+            if context:
+                context = context.set(weighting=None)
+            else:
+                from whoosh.searching import SearchContext
+                context = SearchContext(weighting=None)
+
         if len(qs) == 1:
             # If there's only one term, just use it
-            m = qs[0].matcher(searcher, context)
+            q = qs[0]
+            if not constantscore:
+                q = q.with_boost(self.boost)
+            m = q.matcher(searcher, context)
+        elif constantscore:
+            m = Or(qs).matcher(searcher, context)
         else:
-            if constantscore:
-                # To tell the sub-query that score doesn't matter, set weighting
-                # to None
-                if context:
-                    context = context.set(weighting=None)
-                else:
-                    from whoosh.searching import SearchContext
-                    context = SearchContext(weighting=None)
             # Or the terms together
             m = Or(qs, boost=self.boost).matcher(searcher, context)
+
+        if constantscore and m.is_active():
+            # As documented, every matching document gets the boost as its
+            # score, however many terms the query expanded to in this segment
+            m = matching.ConstantScoreWrapperMatcher(m, score=self.boost)
         return m
 
 
